@@ -589,24 +589,18 @@ func planB(r *vcommon.Run, set *canarySet) *bPlan {
 	return p
 }
 
-func partB(r *vcommon.Run, client *httplib.Client, set *canarySet, plan *bPlan) {
-	names, inCode := plan.names, plan.inCode
+// bcase is one request of the spelling/form/method/multiplicity alphabet.
+type bcase struct {
+	desc     string
+	headers  [][2]string
+	method   string
+	canaries []string // strings that must not be logged
+	visible  string
+}
 
-	lg := &httplib.Logger{Capture: true}
-	s := &httpp.Server{
-		Address: "127.0.0.1:0", ReadTimeout: 30 * time.Second, WriteTimeout: 30 * time.Second, Parent: lg,
-		Handler: http.HandlerFunc(func(w http.ResponseWriter, _ *http.Request) { w.WriteHeader(http.StatusOK) }),
-	}
-	must(s.Initialize())
-	base := "http://" + s.VerifC07Addr().String() + "/some/path?x=1"
-
-	type bcase struct {
-		desc     string
-		headers  [][2]string
-		method   string
-		canaries []string // strings that must not be logged
-		visible  string
-	}
+// enumCases returns every credential header name x spelling x value form x GET/POST x single/duplicated, plus
+// all ordered pairs of different names in one request.
+func enumCases(names []string) []bcase {
 	var cases []bcase
 	n := 0
 	forms := func(can string) [][2]string { // (form name, header value)
@@ -653,6 +647,21 @@ func partB(r *vcommon.Run, client *httplib.Client, set *canarySet, plan *bPlan) 
 				headers: [][2]string{{a, "Bearer " + ca}, {b, cb}, {"X-Harmless", fmt.Sprintf("VISIBLE%dz", n)}}, canaries: []string{ca, cb}})
 		}
 	}
+	return cases
+}
+
+func partB(r *vcommon.Run, client *httplib.Client, set *canarySet, plan *bPlan) {
+	names, inCode := plan.names, plan.inCode
+
+	lg := &httplib.Logger{Capture: true}
+	s := &httpp.Server{
+		Address: "127.0.0.1:0", ReadTimeout: 30 * time.Second, WriteTimeout: 30 * time.Second, Parent: lg,
+		Handler: http.HandlerFunc(func(w http.ResponseWriter, _ *http.Request) { w.WriteHeader(http.StatusOK) }),
+	}
+	must(s.Initialize())
+	base := "http://" + s.VerifC07Addr().String() + "/some/path?x=1"
+
+	cases := enumCases(names)
 
 	nErr := 0
 	var mu sync.Mutex
@@ -823,7 +832,9 @@ func main() {
 	partA(r, tmp, client, set)
 	t1 := time.Now()
 	partB(r, client, set, plan)
-	fmt.Fprintf(os.Stderr, "[c07] part A %.1fs, part B %.1fs\n", t1.Sub(t0).Seconds(), time.Since(t1).Seconds())
+	t2 := time.Now()
+	partC(r, tmp, set, plan)
+	fmt.Fprintf(os.Stderr, "[c07] part A %.1fs, part B %.1fs, part C %.1fs\n", t1.Sub(t0).Seconds(), t2.Sub(t1).Seconds(), time.Since(t2).Seconds())
 	r.Set("length_parametrised_secrets", len(set.vals))
 	r.Exhaustive = true
 	r.Assumptions = []string{
@@ -834,6 +845,9 @@ func main() {
 		"length dimension: a leaked part of a secret is recognised when it is >= 15 contiguous bytes (or the whole secret when that is shorter, >= 8 bytes); secrets of 1..7 bytes are " +
 			"decimal digits and are only looked for where they would be shown (password position of the JSON must hold the placeholder; the header's own line of the request's dump); " +
 			"a dump that shows only a few bytes of a credential (e.g. first/last 4) is not reported",
+		"part C: the body read faults of the function-level drivers are io.Reader errors injected by the harness (the error values net/http and net return); on real connections the " +
+			"client half-closes / closes (FIN) a unix-socket connection: connection resets (RST) and read timeouts are only covered at the function level; request bodies and " +
+			"response bodies are harmless filler (a body is outside the statement), the secrets are those of the request headers",
 		"header values are sent up to 65537 [1000001] bytes (net/http's default 1 MiB header limit applies above); transformed disclosures (hash, encoding, case change of the value) are not searched for",
 	}
 	os.RemoveAll(tmp)
